@@ -575,7 +575,7 @@ def main():
             cov[k] = v
     if chk:
         cov["coqchk"] = chk
-    ev = dict(property_id=prop, tier=tier, seed=seed, level=meta.get("level", "proof"), coverage=cov,
+    ev = dict(property_id=prop, tier=tier, seed=seed, level=norm_level(meta.get("level", "proof")), coverage=cov,
               assumptions=meta.get("assumptions", []) + ["see coverage.trusted_base"],
               wall_s=round(wall, 2), violations=violations)
     if not replay:
@@ -592,6 +592,14 @@ def main():
     for p in problems[:8]:
         print("  problem: %s: %s" % (p[0], p[1][:400]))
     sys.exit(1 if violations else 0)
+
+
+def norm_level(l):
+    l = str(l).lower()
+    for k in ("proof", "model_checking", "translation_validation", "exploration", "fault_enumeration"):
+        if l.startswith(k):
+            return k
+    return "other"
 
 
 def git_head():
